@@ -70,3 +70,10 @@ Proof.
   apply oq_eqb_spec. rewrite (Hl r x ltac:(lia) ltac:(lia)).
   destruct (sym_entry Qplus qhalf p r x); cbn [oq_eq]; [reflexivity | exact I].
 Qed.
+
+(* non-vacuity: an accepted (input, output) pair — the output is what the real routine printed for it *)
+Definition ex_p : csr Q := mkCsr [0; 1; 2; 3]%nat [1; 2; 0]%nat [1 # 2; 1 # 4; 1]%Q.
+Definition ex_s : csr Q :=
+  mkCsr [0; 2; 4; 6]%nat [1; 2; 0; 2; 1; 0]%nat [1 # 4; 1 # 2; 1 # 4; 1 # 8; 1 # 8; 1 # 2]%Q.
+Example sym_spec_b_accepts : sym_spec_b 3 ex_p ex_s = true.
+Proof. vm_compute. reflexivity. Qed.
